@@ -301,8 +301,90 @@ theorem lock_order_acyclic :
       Generated.Locks.reentrantSelf.all (fun l => Generated.Locks.reentrant.contains l) = true :=
   ⟨order_ranked, reentrant_only⟩
 
-theorem ldm_no_deadlock (threads : List (List Op)) (sched : List ThreadId) : ¬ Deadlock (run (sys threads) sched) :=
+/-- **No operation deadlocks – the notification callback included, which is USER code.**  A consumer callback may wait
+for the application: for another application thread that is itself inside an IF.LDM.3 / IF.LDM.4 call (a worker the
+callback hands over to, an application mutex held around LDM calls).  Model: every callback takes the application mutex
+`lkApp`; an application thread is a list of segments of LDM operations, each issued while it holds that mutex or not
+(`sysApp`, `Seg`).  For ALL such thread lists and ALL schedules no reachable state is a deadlock – provided the
+application does not run an attendance pass inside its own mutex (`AppOk`: that would be the application's
+self-deadlock on a non-re-entrant mutex, see `attend_inside_own_mutex_deadlocks`).  The proof is the lock rank
+application mutex < maintenance-thread lock < service lock < database lock (`WF_sysApp`), which every thread respects
+BECAUSE the callback runs with no LDM lock held: `source_callbacks_outside_locks` ties that to the source, and
+`callback_under_service_lock_deadlocks` shows the theorem fails for the other structure. -/
+theorem ldm_no_deadlock (threads : List (List Seg)) (happ : AppOk threads) (sched : List ThreadId) :
+    ¬ Deadlock (run (sysApp threads) sched) :=
+  FlexModel.Conc.no_deadlock rank (sysApp threads) (WF_sysApp threads happ) sched
+
+/-- the special case without application mutex (unconditional) -/
+theorem ldm_no_deadlock_plain (threads : List (List Op)) (sched : List ThreadId) : ¬ Deadlock (run (sys threads) sched) :=
   FlexModel.Conc.no_deadlock rank (sys threads) (WF_sys threads) sched
+
+/-- the invariants hold with application threads as well (taking the application mutex adds no block): e.g. nothing
+raises and subscriptions are conserved under every schedule of every `sysApp` -/
+theorem subscriptions_conserved_app (threads : List (List Seg)) (sched : List ThreadId) :
+    let s := (run (sysApp threads) sched).sh
+    s.subs.length + s.subRemoved = s.subAdded :=
+  ldm_inv_app true SubInv threads (fun _ _ _ _ _ _ _ => rfl) rfl (SubInv_blk true) sched
+
+-- non-vacuity: an attendance thread whose callback is delivered, and a worker that requests data while holding the
+-- application mutex; `AppOk` holds; in the schedule below the callback finds the mutex held by the worker (thread 0
+-- cannot move: its two choices are skipped), the worker's request is served meanwhile, then the callback runs
+def appDemo : List (List Seg) :=
+  [[(false, [.regP 1, .regC 1, .add 1 1 4, .sub 2 1 101, .attend 5 1])], [(true, [.qry 6 1]), (false, [.qry 7 1])]]
+example : AppOk appDemo := by
+  intro segs hs g hg hg1 op hop
+  simp only [appDemo, List.mem_cons, List.not_mem_nil, or_false] at hs
+  rcases hs with rfl | rfl
+  · simp only [List.mem_cons, List.not_mem_nil, or_false] at hg; subst hg; cases hg1
+  · simp only [List.mem_cons, List.not_mem_nil, or_false] at hg
+    rcases hg with rfl | rfl
+    · simp only [List.mem_cons, List.not_mem_nil, or_false] at hop; subst hop; rfl
+    · cases hg1
+example :
+    let blocked := run (sysApp appDemo) (List.replicate 36 0 ++ [1, 0, 0])
+    let s := run (sysApp appDemo) (List.replicate 36 0 ++ [1, 0, 0] ++ List.replicate 20 1 ++ List.replicate 10 0)
+    blocked.thr.map (·.held) = [[], [lkApp]] ∧ (step blocked 0).isNone = true ∧
+    finished s = true ∧ s.sh.calls = [(101, [(0, 4)])] ∧ s.sh.rows 6 = [(0, 4)] := by
+  refine ⟨by decide +kernel, by decide +kernel, by decide +kernel, by decide +kernel, by decide +kernel⟩
+
+/-- the structure of seeded change C16-m5: the notification is delivered INSIDE the last-checked section, i.e. the
+callback (which takes the application mutex) runs while the service lock is held -/
+def attendIterHeld (o : Nat) : List TI :=
+  [.loc (subPick o)] ++ tsect lkSvc (.gblk o 4 1 (fun s => consHas o (s.reg o 5 / 100) s)) ++
+  [.loc (whenReg o 4 1 (whenReg o 1 0 (markRemove o)))] ++
+  tsect lkDb (.gblk o 4 1 (whenReg o 1 1 (dbAll o))) ++
+  tsect lkSvc (.gblk o 4 1 (whenReg o 1 1 (whenReg o 6 1 (subStored o)))) ++
+  [.acq lkSvc, .gblk o 4 1 (whenReg o 1 1 (whenReg o 6 1 (whenReg o 7 1 (fun s => lastChkSection (s.reg o 5) s)))),
+   .acq lkApp, .gblk o 4 1 (whenReg o 1 1 (whenReg o 6 1 (whenReg o 7 1 (callback o)))), .rel lkApp, .rel lkSvc]
+
+def heldSys : Sys LSt :=
+  mkSys {} [threadProg [.regP 1, .regC 1, .add 1 1 4, .sub 2 1 101] ++
+              ((tsect lkSvc (.blk (subsCopy 5)) ++ attendIterHeld 5).map TI.erase),
+            segProg (true, [.qry 6 1])]
+
+/-- **negative twin**: with the callback inside the service-lock section the rank argument fails (the application mutex
+would be taken while the service lock is held) and a deadlock IS reachable: the attendance thread holds the service
+lock and waits for the application mutex, the worker holds the application mutex and waits for the service lock (its
+request's registration check) -/
+theorem callback_under_service_lock_deadlocks :
+    Deadlock (run heldSys (List.replicate 35 0 ++ [1])) ∧ ¬ WFp rank [] ((attendIterHeld 5).map TI.erase) := by
+  refine ⟨deadlock_of_stuckB _ (by decide +kernel), ?_⟩
+  simp [attendIterHeld, tsect, TI.erase, WFp, rank, lkSvc, lkApp, lkDb]
+
+/-- the hypothesis `AppOk` is needed and is the application's own business: a thread that runs an attendance pass while
+it holds the (non-re-entrant) application mutex blocks on its own callback -/
+theorem attend_inside_own_mutex_deadlocks :
+    Deadlock (run (sysApp [[(false, [.regP 1, .regC 1, .add 1 1 4, .sub 2 1 101]), (true, [.attend 5 1])]])
+      (List.replicate 40 0)) :=
+  deadlock_of_stuckB _ (by decide +kernel)
+
+/-- **tie of the deadlock clause to the source** (regenerated by harness/gen_ldm_shape.py and gen_locks.py): the only
+invocation of consumer code is in `process_notifications`, outside every `with` section, and every call on every chain
+that reaches it (attendance pass, reactive add, service thread) is made with no lock held -/
+theorem source_callbacks_outside_locks :
+    Generated.LdmShape.userCalls = [("LDMService_process_notifications", [])] ∧
+    notifiers.all (fun g => (Generated.Locks.calls g).all (fun c => !notifiers.contains c.2 || c.1.isEmpty)) = true :=
+  ⟨callbacks_outside_locks, notification_chain_unlocked.2.2.2.2.2⟩
 
 /-- **No operation raises.** The model contains the two raising statements of the code - `del self.database[key]`
 (KeyError on an absent key, inside `DictionaryDataBase.remove`) and `self.subscriptions.remove(sub)` (ValueError on an
